@@ -172,3 +172,25 @@ func taScenarios(thorough bool) []*scenario {
 	}
 	return out
 }
+
+// c09Scenarios: the shared frames plus failing requests, resynchronisation, reconfiguration between stop and remove, restart.
+func c09Scenarios(thorough bool) []*scenario {
+	out := taScenarios(thorough)
+	add := func(name string, m *sysgen.Spec, cfgs []cfgSpec, ps []podSpec, mn menu, ups []updSpec) {
+		s := &scenario{name: name, policy: polTA, machine: m, cfgs: cfgs, pods: ps, menu: mn, updates: ups, depth: 5, maxInc: 1}
+		if thorough {
+			s.depth = 6
+		}
+		s.prefix = runAll(len(ps))
+		out = append(out, s)
+	}
+	std := []cfgSpec{taCfg("rsv750m")}
+	// capacity exhaustion: the third G3 cannot fit on 8 CPUs
+	add("ta/c09/exhaust-G3x3", machine8(), std, pods(tG3, tG3, tG3), menu{stop: true, remove: true, sync: true}, nil)
+	add("ta/c09/reconf-between-stop-and-remove", machine16(), []cfgSpec{taCfg("rsv750m"), taCfg("rsv2", taReserved("cpuset:0,8"))},
+		pods(tG2, tB500), menu{stop: true, remove: true, sync: true, reconf: []int{0, 1}}, nil)
+	add("ta/c09/restart", machine16(), std, pods(tG2, tB500, tBE), menu{stop: true, remove: true, restart: true}, nil)
+	add("ta/c09/recreate", machine16(), std, pods(tG2, tG1500), menu{stop: true, remove: true}, nil)
+	out[len(out)-1].maxInc = 2
+	return out
+}
